@@ -381,6 +381,29 @@ impl Property for C17 {
                     if case.sampler == Sampler::DecayingQuorum {
                         let cap = (case.max_samples_x10 as f64 / 10.0).ceil() as usize;
                         out.check(count.iter().all(|c| *c <= cap), "C17/seat-cap-exceeded/DecayingQuorum", || format!("cap {cap}, counts {:?}", &count[..n.min(20)]));
+                        // a committee is a function of the validator set and the random source only:
+                        // drawing one must leave no trace in the instance - a single draw (and a
+                        // clone's single draw) afterwards equals the same draw on a fresh instance
+                        let msx = case.max_samples_x10 as f64 / 10.0;
+                        let r = catch(|| {
+                            let used = DecayingAcceptanceSampler::new(vs.clone(), msx, k);
+                            let _ = used.sample_quorum(&mut StdRng::seed_from_u64(seed));
+                            let fresh = DecayingAcceptanceSampler::new(vs.clone(), msx, k);
+                            let s2 = seed ^ 0x5151;
+                            let a = used.sample(&mut StdRng::seed_from_u64(s2)).as_usize();
+                            let b = fresh.sample(&mut StdRng::seed_from_u64(s2)).as_usize();
+                            let used2 = DecayingAcceptanceSampler::new(vs.clone(), msx, k);
+                            let _ = used2.sample_quorum(&mut StdRng::seed_from_u64(seed));
+                            let c = used2.clone().sample(&mut StdRng::seed_from_u64(s2)).as_usize();
+                            (a, b, c)
+                        });
+                        match r {
+                            Ok((a, b, c)) => {
+                                out.check(a == b, "C17/committee-leaves-state-behind/DecayingQuorum", || format!("n={n} k={k}: after a committee the next single draw is {a}, on a fresh instance {b}"));
+                                out.check(c == b, "C17/committee-leaves-state-behind/DecayingQuorum", || format!("n={n} k={k}: a clone taken after a committee draws {c}, a fresh instance {b}"));
+                            }
+                            Err(p) => out.violate(format!("C17/sample-panic/{name}/{}", panic_msg(&p)), format!("single draw after a committee, n={n} k={k}: {p}")),
+                        }
                     }
                 }
             }
